@@ -21,6 +21,7 @@ type profile struct {
 	maxPhases   int
 	reopenW     int
 	coupleSizes bool
+	hugeBatch   int // out of 1000: an append of 4-5 entries of ~280 KiB each (one StoreLogs of more than 1 MiB)
 }
 
 var profiles = map[string]profile{
@@ -96,6 +97,14 @@ func genOps(t *rapid.T, pr profile, seg, maxOps int, prev *[]int) []COp {
 		case k < pr.delWeight+pr.reopenW+5:
 			ops = append(ops, COp{K: "set", Key: rapid.SampledFrom([]string{"CurrentTerm", "k2"}).Draw(t, "key"), Val: rapid.SliceOfN(rapid.Byte(), 0, 9).Draw(t, "val")})
 		default:
+			if pr.hugeBatch > 0 && rapid.IntRange(0, 999).Draw(t, "huge") < pr.hugeBatch {
+				op := COp{K: "append", Start: 1}
+				for j, m := 0, rapid.IntRange(4, 5).Draw(t, "hn"); j < m; j++ {
+					op.Entries = append(op.Entries, ESpec{DataLen: 280000 + 8*j, Seed: uint8(j)})
+				}
+				ops = append(ops, op)
+				continue
+			}
 			ops = append(ops, genAppendOp(t, pr, seg, prev, 1, 5))
 		}
 	}
@@ -201,6 +210,29 @@ func TestCrashC03Stale(t *testing.T) {
 // TestCrashC09Stale: the format verdicts over the stale-bytes chains of the C02 generator.
 func TestCrashC09Stale(t *testing.T) {
 	common.Run(t, "C09", "CrashC09Stale", genCase("C02"), runFor("C09"))
+}
+
+// TestCrashC02Huge: one StoreLogs of more than 1 MiB (4-5 entries of ~280 KiB) as the last call before the
+// crash, after a short ordinary prefix: present in full or absent in full, wherever the crash falls.
+func TestCrashC02Huge(t *testing.T) {
+	pr := profiles["C02"]
+	common.Run(t, "C02", "CrashC02Huge", func(t *rapid.T) Case {
+		c := Case{FocusK: -1, FocusTear: -1, SegSize: rapid.SampledFrom([]int{4096, 1 << 20, 4 << 20}).Draw(t, "seg")}
+		var prev []int
+		c.Final = genOps(t, pr, 4096, 3, &prev)
+		op := COp{K: "append", Start: 1}
+		for j, m := 0, rapid.IntRange(4, 5).Draw(t, "hn"); j < m; j++ {
+			op.Entries = append(op.Entries, ESpec{DataLen: 280000 + 8*j, Seed: uint8(j)})
+		}
+		c.Final = append(c.Final, op)
+		for _, m := range []string{"none", "all", "prefix", "suffix", "allButLast", "onlyLast"} {
+			c.Tears = append(c.Tears, genTear(t, m))
+		}
+		for i := 0; i < 12; i++ {
+			c.KSample = append(c.KSample, rapid.IntRange(0, 5000).Draw(t, "ks"))
+		}
+		return c
+	}, runFor("C02"))
 }
 func TestCrashC02(t *testing.T) { common.Run(t, "C02", "CrashC02", genCase("C02"), runFor("C02")) }
 func TestCrashC03(t *testing.T) { common.Run(t, "C03", "CrashC03", genCase("C03"), runFor("C03")) }
